@@ -60,7 +60,18 @@ HeurEv ==
   /\ Rec[l].pos_finite /\ PowerOfTwo(Fx12(Rec[l].eps)) /\ Rec[l].exit_ok /\ Rec[l].prev_continues
   /\ UNCHANGED <<m, nd, le, leb, hb, mu, delta, first>> /\ l' = l + 1
 
-Next == NewChain \/ InitEv \/ StepEv \/ HeurEv
+\* a chain of the multi-chain front end after its first run() / run_progress() call: its shrinkage point is ln(10 eps0) of
+\* ITS OWN start value (the heuristic at its start point with its first momentum draw, evaluated by the harness through
+\* the wrapper that the "heur" events bind to Algorithm 4)
+MultiEv ==
+  /\ l <= Len(Rec) /\ Rec[l].e = "multi"
+  /\ LET e == Rec[l] IN
+     /\ e.ok_run /\ Fin(e.eps0) /\ Fin(e.mu) /\ Fin(e.eps)
+     /\ PowerOfTwo(Fx12(e.eps0))
+     /\ MuOk(Fx12(e.mu), Fx12(e.eps0))
+  /\ UNCHANGED <<m, nd, le, leb, hb, mu, delta, first>> /\ l' = l + 1
+
+Next == NewChain \/ InitEv \/ StepEv \/ HeurEv \/ MultiEv
 Spec == Init /\ [][Next]_vars
 \* within a run, once m > n_discard the step size never changes again
 FrozenForever == [][(l' = l + 1 /\ l <= Len(Rec) /\ Rec[l].e = "step" /\ m >= nd /\ m > 0 /\ ~first) => (le' = leb /\ leb' = leb)]_vars
